@@ -617,42 +617,6 @@ func treeNoSemiHazard(p *ast.Program) bool {
 	return found
 }
 
-// ---------- xjs's own refusal of automatic semicolon insertion before '{' ----------
-
-// srcBraceAfterNewline: a '{' that starts a line directly after a token that can end a statement.
-// ECMAScript inserts a semicolon there (the '{' cannot continue the statement); xjs excludes
-// '{' from its line-break rule and reports "semicolon or newline expected".
-func srcBraceAfterNewline(src string) bool {
-	ts := oaScan(src)
-	for i, t := range ts {
-		if i == 0 || !t.nlBefore || t.text != "{" {
-			continue
-		}
-		p := ts[i-1]
-		switch {
-		case p.kind == "num", p.kind == "str", p.kind == "tpl", p.text == ")", p.text == "]", p.text == "}", p.text == "++", p.text == "--":
-			return true
-		case p.kind == "word" && p.text != "else":
-			return true
-		}
-	}
-	return false
-}
-
-// treeBlockAfterOpenStatement: a block statement directly after a statement that ends open
-// (printed without semicolons the block's '{' starts a line after an expression).
-func treeBlockAfterOpenStatement(p *ast.Program) bool {
-	found := false
-	oaStatementLists(p, func(ss []ast.Statement) {
-		for i := 0; i+1 < len(ss); i++ {
-			if _, ok := ss[i+1].(*ast.BlockStatement); ok && oaEndsOpen(ss[i]) {
-				found = true
-			}
-		}
-	})
-	return found
-}
-
 // ---------- generators ----------
 
 // oaRenderAvoiding renders the tree in random layouts until the text is outside the known
